@@ -419,6 +419,26 @@ def _random_all_case(rng, spliced_crossing=False):
             "min": rng.choice([6, 9, 12]), "ovl": overlap, "sampled": True}
 
 
+def _two_wrapping_orfs_case(rng):
+    """ a ring on which two ORFs of one strand, in different frames, both run over the origin
+        (ATG CAT GCC TAA and, starting inside it, ATG CCT AAC TGA), searched as a whole or in an area over the origin """
+    length = rng.choice([27, 30, 33, 36, 41])
+    motif = "ATGCATGCCTAACTGA"        # first ORF from offset 0, second from offset 4
+    cut = rng.randrange(7, 10)         # how much of the motif lies before the origin (both ORFs cross it)
+    background = [rng.choice("CG") for _ in range(length)]
+    for offset, base in enumerate(motif):
+        background[(length - cut + offset) % length] = base
+    rec = codes("".join(background))
+    if rng.random() < 0.5:
+        rec = revcomp(rec)
+    if rng.random() < 0.5:
+        area = NO_AREA
+    else:
+        area = {"parts": [[length - rng.randrange(10, 13), length], [0, rng.randrange(10, 13)]], "strand": 1}
+    return {"op": "all", "rec": rec, "circ": True, "genes": [], "area": area, "min": rng.choice([6, 9, 12]),
+            "ovl": rng.choice([0, 3]), "sampled": True}
+
+
 def _gaps_cases(rng, quick):
     cases = []
     length = 8
@@ -562,6 +582,8 @@ def run(ctx):
         cases.append(_random_all_case(rng))
     for _ in range(600 if ctx.quick else 12000):
         cases.append(_random_all_case(rng, spliced_crossing=True))
+    for _ in range(150 if ctx.quick else 3000):
+        cases.append(_two_wrapping_orfs_case(rng))
     for idx, case in enumerate(cases):
         case["id"] = idx
     cases_by_id = {case["id"]: case for case in cases}
